@@ -491,39 +491,30 @@ func (P *Prog) checkCoercedValueStored(r *Result) {
 		if _, f := loadOfField(cv(coercerCall.Call.Args[0])); f == nil || !sameField(f, R.FData) {
 			problems = append(problems, "the coercer is not applied to the node's input (ctx.Data)")
 		}
-		// a store to dest of typeassert(extract #0)
+		// on the decision paths of the pipeline (helpers entered): the destination receives the coercer's result
+		// (DEST=coerced) on every path where the coercion succeeded and the node goes on, and on no other
 		stored := false
-		eachInstr(pl, func(b *ssa.BasicBlock, _ int, in ssa.Instruction) {
-			st, ok := in.(*ssa.Store)
-			if !ok {
-				return
-			}
-			ta, ok := st.Val.(*ssa.TypeAssert)
-			if !ok {
-				return
-			}
-			ex, ok := ta.X.(*ssa.Extract)
-			if !ok || ex.Tuple != ssa.Value(coercerCall) || ex.Index != 0 {
-				return
-			}
-			isDest := false
-			for _, rt := range P.rootsOf(st.Addr) {
-				if P.classify(rt).class == mcDest {
-					isDest = true
+		paths, capHit := P.nodePaths(pl)
+		if capHit {
+			problems = append(problems, "too many paths to enumerate")
+		}
+		for _, p := range paths {
+			ok, failed := false, false
+			for _, it := range p.items {
+				if it.kind == "COERCE-ERR" {
+					ok, failed = it.val == "F", it.val == "T"
 				}
 			}
-			if !isDest {
-				return
+			has := p.has("DEST", "coerced")
+			switch {
+			case ok && has:
+				stored = true
+			case ok && !has:
+				problems = append(problems, "a path on which the coercion succeeded does not store its result into the destination  [path: "+p.String()+"]")
+			case failed && has:
+				problems = append(problems, "the coercer's result is stored although the coercion failed  [path: "+p.String()+"]")
 			}
-			// guarded by err == nil
-			for _, gd := range guardsOf(b) {
-				if x, eq, ok := isNilCompare(gd.If.Cond); ok {
-					if e2, ok := x.(*ssa.Extract); ok && e2.Tuple == ssa.Value(coercerCall) && e2.Index == 1 && gd.True == eq {
-						stored = true
-					}
-				}
-			}
-		})
+		}
 		if !stored {
 			problems = append(problems, "the coercer's result is not stored into the destination on the err == nil path")
 		}
